@@ -116,6 +116,7 @@ structure LI (p : Pool6) (now : Int) (K : List Lease) (out0 : List Block) (R0 : 
   keep : ∀ k, k ∈ K → ∃ q, q ∈ ls ∧ q.1.pfx = k.pfx ∧ k.expire ≤ q.1.expire
   rep : ∀ l, l ∈ reply → (l, true) ∈ ls ∧ l.expire = now + leaseDur
   nofresh : fresh = false → ls.length = K.length
+  known : fresh = false → ∀ q, q ∈ ls → ∃ k, k ∈ K ∧ k.pfx = q.1.pfx
   mono : ∀ l, l ∈ R0 → l ∈ reply
 
 /-- handing out (with extension) the leases selected by `C` -/
@@ -130,7 +131,7 @@ theorem LI.give {p : Pool6} {now : Int} {K : List Lease} {out0 : List Block} {R0
     split
     · exact extend_pfx _ _
     · rfl
-  refine ⟨?_, ?_, ?_, ?_, ?_, ?_⟩
+  refine ⟨?_, ?_, ?_, ?_, ?_, ?_, ?_⟩
   · obtain ⟨out, I6, h0, hls⟩ := I.out
     refine ⟨out, I6, h0, ?_⟩
     intro q' hq'
@@ -173,6 +174,10 @@ theorem LI.give {p : Pool6} {now : Int} {K : List Lease} {out0 : List Block} {R0
   · intro hf
     rw [List.length_map]
     exact I.nofresh hf
+  · intro hf q' hq'
+    obtain ⟨q, hq, rfl⟩ := List.mem_map.mp hq'
+    rw [hpfx]
+    exact I.known hf q hq
   · intro l hl
     exact List.mem_append_left _ (I.mono l hl)
 
@@ -180,7 +185,7 @@ theorem LI.setR0 {p : Pool6} {now : Int} {K : List Lease} {out0 : List Block} {R
     {a : A6} {ls : List (Lease × Bool)} {reply : List Lease} {fresh : Bool}
     (I : LI p now K out0 R0 a ls reply fresh) :
     LI p now K out0 reply a ls reply fresh :=
-  ⟨I.out, I.src, I.keep, I.rep, I.nofresh, fun _ h => h⟩
+  ⟨I.out, I.src, I.keep, I.rep, I.nofresh, I.known, fun _ h => h⟩
 
 /-- loop 1 -/
 theorem LI.loop1 {p : Pool6} {now : Int} {K : List Lease} {out0 : List Block} {R0 : List Lease}
@@ -299,7 +304,7 @@ theorem LI.allocErr {p : Pool6} {now : Int} {K : List Lease} {out0 : List Block}
     (h : Hint6) (hh : h.bits = 128 → h.ones ≤ 128) (c : Option Nat) (a' : A6) (e : AErr)
     (hr : a.allocate h c = some (a', .error e)) : LI p now K out0 R0 a' ls reply fresh := by
   obtain ⟨out, I6, h0, hls⟩ := I.out
-  exact ⟨⟨out, alloc_err_facts g I6 h hh c a' e hr, h0, hls⟩, I.src, I.keep, I.rep, I.nofresh, I.mono⟩
+  exact ⟨⟨out, alloc_err_facts g I6 h hh c a' e hr, h0, hls⟩, I.src, I.keep, I.rep, I.nofresh, I.known, I.mono⟩
 
 theorem LI.allocOk {p : Pool6} {now : Int} {K : List Lease} {out0 : List Block} {R0 : List Lease}
     {a : A6} {ls : List (Lease × Bool)} {reply : List Lease} {fresh : Bool} (g : Geo p)
@@ -309,7 +314,7 @@ theorem LI.allocOk {p : Pool6} {now : Int} {K : List Lease} {out0 : List Block} 
     LI p now K out0 R0 a' (ls ++ [(⟨b, now + leaseDur⟩, true)]) (reply ++ [⟨b, now + leaseDur⟩]) true := by
   obtain ⟨out, I6, h0, hls⟩ := I.out
   obtain ⟨I6', hdis, hgood⟩ := alloc_ok_facts g I6 h hh c a' b hr
-  refine ⟨⟨b :: out, I6', fun x hx => List.mem_cons_of_mem _ (h0 x hx), ?_⟩, ?_, ?_, ?_, ?_, ?_⟩
+  refine ⟨⟨b :: out, I6', fun x hx => List.mem_cons_of_mem _ (h0 x hx), ?_⟩, ?_, ?_, ?_, ?_, ?_, ?_⟩
   · intro q hq
     rcases List.mem_append.mp hq with hq | hq
     · exact List.mem_cons_of_mem _ (hls q hq)
@@ -337,6 +342,8 @@ theorem LI.allocOk {p : Pool6} {now : Int} {K : List Lease} {out0 : List Block} 
     · rw [List.mem_singleton] at hl
       subst hl
       exact ⟨List.mem_append_right _ (List.mem_singleton.mpr rfl), rfl⟩
+  · intro hf
+    cases hf
   · intro hf
     cases hf
   · intro l hl
@@ -433,7 +440,7 @@ theorem LI.init {p : Pool6} {now : Int} {s : PState} {c : ClientKey} {q : IAPDRe
       (st0 s c q).fresh := by
   unfold st0
   simp only
-  refine ⟨⟨out0, I6, fun _ h => h, ?_⟩, ?_, ?_, ?_, ?_, ?_⟩
+  refine ⟨⟨out0, I6, fun _ h => h, ?_⟩, ?_, ?_, ?_, ?_, ?_, ?_⟩
   · intro x hx
     obtain ⟨l, hl, rfl⟩ := List.mem_map.mp hx
     exact hout l hl
@@ -446,6 +453,9 @@ theorem LI.init {p : Pool6} {now : Int} {s : PState} {c : ClientKey} {q : IAPDRe
     cases hl
   · intro _
     exact List.length_map _
+  · intro _ x hx
+    obtain ⟨l, hl, rfl⟩ := List.mem_map.mp hx
+    exact ⟨l, hl, rfl⟩
   · intro l hl
     cases hl
 
@@ -673,7 +683,7 @@ theorem hintsOf_hintless (q : IAPDReq) (hl : q.hintless = true) :
 theorem hintless_loops (now : Int) (s : PState) (c : ClientKey) (q : IAPDReq) (cs : List (Option Nat))
     (hl : q.hintless = true) (hK : s.leasesOf c ≠ []) :
     ∃ st, loop3 now (loop2 now (loop1 now (st0 s c q))) cs = some (st, cs) ∧
-      st.reply = (s.leasesOf c).map (fun l => l.extend now) := by
+      st.reply = (s.leasesOf c).map (fun l => l.extend now) ∧ st.fresh = false := by
   obtain ⟨rest, hh, hrest⟩ := hintsOf_hintless q hl
   have hhs : (st0 s c q).hs = (HintP.empty, false) :: rest.map (fun h => (h, false)) := by
     unfold st0
@@ -694,7 +704,7 @@ theorem hintless_loops (now : Int) (s : PState) (c : ClientKey) (q : IAPDReq) (c
     obtain ⟨l, _, rfl⟩ := List.mem_map.mp hx
     rfl
   rw [loop1_noop now _ hall, loop2_hintless now _ _ hhs hls]
-  refine ⟨_, loop3_skip now _ cs ?_ _ ?_, ?_⟩
+  refine ⟨_, loop3_skip now _ cs ?_ _ ?_, ?_, rfl⟩
   · show (st0 s c q).reply ++ (st0 s c q).ls.map (fun p => p.1.extend now) ≠ []
     unfold st0
     simp only [List.nil_append, List.map_map]
@@ -710,6 +720,107 @@ theorem hintless_loops (now : Int) (s : PState) (c : ClientKey) (q : IAPDReq) (c
     unfold st0
     simp only [List.nil_append, List.map_map]
     rfl
+
+/-! ### an IA_PD all of whose hints are unspecified or name a lease exactly allocates nothing -/
+
+theorem loop2Step_done' (now : Int) (acc : List (Lease × Bool) × List Lease × List (HintP × Bool))
+    (q : HintP × Bool) : (loop2Step now acc q).2.2 = acc.2.2 ++ [q] ∨
+      (q.2 = false ∧ ∃ b, (loop2Step now acc q).2.2 = acc.2.2 ++ [(q.1, b)]) := by
+  obtain ⟨ls, reply, done⟩ := acc
+  unfold CoreDhcp.loop2Step
+  simp only
+  split
+  · exact Or.inl rfl
+  · rename_i hc
+    simp only [Bool.or_eq_true, not_or, Bool.not_eq_true] at hc
+    exact Or.inr ⟨hc.1, _, rfl⟩
+
+theorem loop2Step_reply (now : Int) (acc : List (Lease × Bool) × List Lease × List (HintP × Bool))
+    (q : HintP × Bool) (l : Lease) (h : l ∈ acc.2.1) : l ∈ (loop2Step now acc q).2.1 := by
+  obtain ⟨ls, reply, done⟩ := acc
+  unfold CoreDhcp.loop2Step
+  simp only
+  split
+  · exact h
+  · exact List.mem_append_left _ h
+
+theorem loop2_reply_mono (now : Int) (st : LoopSt) (l : Lease) (h : l ∈ st.reply) :
+    l ∈ (loop2 now st).reply := by
+  unfold CoreDhcp.loop2
+  simp only
+  exact foldl_inv_mem (loop2Step now) (fun acc => l ∈ acc.2.1) st.hs (st.ls, st.reply, [])
+    (fun b a _ hb => loop2Step_reply now b a l hb) h
+
+theorem loop2_hs_sat (now : Int) (st : LoopSt)
+    (h : ∀ q, q ∈ st.hs → q.2 = true ∨ q.1 = HintP.empty) :
+    ∀ q, q ∈ (loop2 now st).hs → q.2 = true ∨ q.1 = HintP.empty := by
+  unfold CoreDhcp.loop2
+  simp only
+  apply foldl_inv_mem (loop2Step now)
+    (fun acc => ∀ q, q ∈ acc.2.2 → q.2 = true ∨ q.1 = HintP.empty) st.hs (st.ls, st.reply, [])
+  · intro b x hx hb q hq
+    rcases loop2Step_done' now b x with e | ⟨hx2, bb, e⟩
+    · rw [e] at hq
+      rcases List.mem_append.mp hq with hq | hq
+      · exact hb q hq
+      · rw [List.mem_singleton] at hq
+        subst hq
+        exact h q hx
+    · rw [e] at hq
+      rcases List.mem_append.mp hq with hq | hq
+      · exact hb q hq
+      · rw [List.mem_singleton] at hq
+        subst hq
+        right
+        rcases h x hx with h' | h'
+        · rw [hx2] at h'; cases h'
+        · exact h'
+  · intro q hq
+    cases hq
+
+theorem exact_loops (now : Int) (s : PState) (c : ClientKey) (q : IAPDReq) (cs : List (Option Nat))
+    (hall : ∀ hint, hint ∈ q.hints → hint = HintP.empty ∨ ∃ k, k ∈ s.leasesOf c ∧ hint.same k = true)
+    (hsome : ∃ hint, hint ∈ q.hints ∧ ∃ k, k ∈ s.leasesOf c ∧ hint.same k = true) :
+    ∃ st, loop3 now (loop2 now (loop1 now (st0 s c q))) cs = some (st, cs) ∧ st.fresh = false := by
+  have hls : ∀ k, k ∈ s.leasesOf c → (k, false) ∈ (st0 s c q).ls := by
+    intro k hk
+    unfold st0
+    simp only
+    exact List.mem_map.mpr ⟨k, hk, rfl⟩
+  have hhints : hintsOf q = q.hints := by
+    obtain ⟨hint, hh, _⟩ := hsome
+    unfold hintsOf
+    cases hq : q.hints with
+    | nil => rw [hq] at hh; cases hh
+    | cons x xs => rfl
+  -- after loop 1 every hint is satisfied or unspecified
+  have hs1 : ∀ x, x ∈ (loop1 now (st0 s c q)).hs → x.2 = true ∨ x.1 = HintP.empty := by
+    intro x hx
+    unfold CoreDhcp.loop1 at hx
+    simp only at hx
+    obtain ⟨x0, hx0, rfl⟩ := List.mem_map.mp hx
+    have hx0' : x0.1 ∈ q.hints := by
+      unfold st0 at hx0
+      simp only at hx0
+      obtain ⟨h0, hh0, rfl⟩ := List.mem_map.mp hx0
+      rw [hhints] at hh0
+      exact hh0
+    rcases hall x0.1 hx0' with he | ⟨k, hk, hs⟩
+    · exact Or.inr he
+    · left
+      have : (st0 s c q).ls.any (fun p => x0.1.same p.1) = true :=
+        List.any_eq_true.mpr ⟨(k, false), hls k hk, hs⟩
+      simp only [this, Bool.or_true]
+  have hs2 := loop2_hs_sat now _ hs1
+  have hrep : (loop2 now (loop1 now (st0 s c q))).reply ≠ [] := by
+    obtain ⟨hint, hh, k, hk, hs⟩ := hsome
+    have hh' : (hint, false) ∈ (st0 s c q).hs := by
+      unfold st0
+      simp only
+      exact List.mem_map.mpr ⟨hint, mem_hintsOf q hint hh, rfl⟩
+    have := loop1_match now (st0 s c q) (hint, false) hh' (k, false) (hls k hk) hs
+    exact List.ne_nil_of_mem (loop2_reply_mono now _ _ this)
+  exact ⟨_, loop3_skip now _ cs hrep _ hs2, rfl⟩
 
 /-! ### the monitor's `heldAdd` -/
 
@@ -862,23 +973,41 @@ theorem c08_of {p : Pool6} {now : Int} {s : PState} {held : List Held} {c : Clie
     rw [← e]
     exact hcross h.client l' hc hl'
 
+theorem imp_bool (X Y : Bool) (h : X = true → Y = true) : (!X || Y) = true := by
+  cases X
+  · rfl
+  · exact h rfl
+
 theorem c09_of {p : Pool6} {now : Int} {s : PState} {held : List Held} {c : ClientKey}
     {out0 : List Block} {R0 : List Lease} {st : LoopSt} (q : IAPDReq)
     (I : PInv p now s held)
     (L : LI p now (s.leasesOf c) out0 R0 st.alloc st.ls st.reply st.fresh)
     (hmatch : ∀ hint k, hint ∈ q.hints → k ∈ s.leasesOf c → hint.same k = true → k.extend now ∈ R0)
     (hless : q.hintless = true → s.leasesOf c ≠ [] →
-      st.reply = (s.leasesOf c).map (fun l => l.extend now)) :
+      st.reply = (s.leasesOf c).map (fun l => l.extend now))
+    (hnof : (∀ hint, hint ∈ q.hints →
+        hint = HintP.empty ∨ ∃ k, k ∈ s.leasesOf c ∧ hint.same k = true) →
+      s.leasesOf c ≠ [] → st.fresh = false) :
     c09IAPD held c now q ⟨q.iaid, st.reply.map (fun l => (l.pfx, l.expire - now))⟩ = true := by
   unfold c09IAPD
   simp only []
-  rw [Bool.and_eq_true]
+  rw [Bool.and_eq_true, Bool.and_eq_true]
+  have hKne : (!(heldOf held c).isEmpty) = true → s.leasesOf c ≠ [] := by
+    intro hne
+    cases hm : heldOf held c with
+    | nil => rw [hm] at hne; cases hne
+    | cons h0 t =>
+      have : h0 ∈ heldOf held c := by rw [hm]; exact List.mem_cons_self
+      obtain ⟨hm1, hm2⟩ := (mem_heldOf held c h0).mp this
+      obtain ⟨k, hk, _, _⟩ := I.h1 h0 hm1
+      rw [hm2] at hk
+      exact List.ne_nil_of_mem hk
   have hagain : ∀ h, h ∈ heldOf held c → ∀ k, k ∈ s.leasesOf c → k.pfx = h.pfx →
       h.until_ ≤ k.expire → k.extend now ∈ st.reply →
       (List.map (fun l => (l.pfx, l.expire - now)) st.reply).any
         (fun x => x.fst == h.pfx && decide (h.until_ - now ≤ x.snd)) = true :=
     fun h _ k _ e hu hr => again_of now st.reply h k e hu hr
-  constructor
+  refine ⟨⟨?_, ?_⟩, ?_⟩
   · rw [List.all_eq_true]
     intro hint hh
     cases hint with
@@ -935,6 +1064,39 @@ theorem c09_of {p : Pool6} {now : Int} {s : PState} {held : List Held} {c : Clie
         refine ⟨h, (mem_heldOf held c h).mpr ⟨hh1, hh2⟩, ?_⟩
         simp only [beq_iff_eq]
         rw [hh3, extend_pfx]
+  · apply imp_bool
+    intro hc
+    rw [Bool.and_eq_true] at hc
+    have hK := hKne hc.2
+    have hall : ∀ hint, hint ∈ q.hints →
+        hint = HintP.empty ∨ ∃ k, k ∈ s.leasesOf c ∧ hint.same k = true := by
+      intro hint hh
+      have := List.all_eq_true.mp hc.1 hint hh
+      cases hint with
+      | empty => exact Or.inl rfl
+      | nomask ip v4 => cases this
+      | pfx ip v4 len =>
+        right
+        simp only at this
+        obtain ⟨h, hm, hp⟩ := List.any_eq_true.mp this
+        rw [beq_iff_eq] at hp
+        obtain ⟨hm1, hm2⟩ := (mem_heldOf held c h).mp hm
+        obtain ⟨k, hk, e, _⟩ := I.h1 h hm1
+        rw [hm2] at hk
+        refine ⟨k, hk, ?_⟩
+        unfold HintP.same
+        rw [e, hp]
+        simp
+    have hf := hnof hall hK
+    rw [List.all_eq_true]
+    intro x hx
+    obtain ⟨l, hl', rfl⟩ := List.mem_map.mp hx
+    obtain ⟨k, hk, e⟩ := L.known hf (l, true) (L.rep l hl').1
+    obtain ⟨h, hh1, hh2, hh3⟩ := I.h2 c k hk
+    rw [List.any_eq_true]
+    refine ⟨h, (mem_heldOf held c h).mpr ⟨hh1, hh2⟩, ?_⟩
+    simp only [beq_iff_eq]
+    rw [hh3, e]
 
 /-- the invariant after one IA_PD, with the monitor's `held` updated from the reply -/
 theorem PInv.afterIAPD {p : Pool6} {now : Int} {s s' : PState} {held : List Held} {c : ClientKey}
@@ -1029,13 +1191,35 @@ theorem iapd_ok {p : Pool6} (g : Geo p) {now : Int} {s s' : PState} {held : List
   obtain ⟨st, R0, L, h3, ha, hlc, hframe, hr, hmatch⟩ :=
     handleIAPD_spec g hq I6 (hout c) (I.exp c) h
   subst hr
-  refine ⟨c08_of q I hout L, c09_of q I L hmatch ?_, PInv.afterIAPD q.iaid I hout L ha hlc hframe⟩
-  intro hl hK
-  obtain ⟨st2, e, hrep⟩ := hintless_loops now s c q cs hl hK
-  rw [h3] at e
-  simp only [Option.some.injEq, Prod.mk.injEq] at e
-  rw [e.1]
-  exact hrep
+  refine ⟨c08_of q I hout L, c09_of q I L hmatch ?_ ?_, PInv.afterIAPD q.iaid I hout L ha hlc hframe⟩
+  · intro hl hK
+    obtain ⟨st2, e, hrep, _⟩ := hintless_loops now s c q cs hl hK
+    rw [h3] at e
+    simp only [Option.some.injEq, Prod.mk.injEq] at e
+    rw [e.1]
+    exact hrep
+  · intro hall hK
+    by_cases hl : q.hintless = true
+    · obtain ⟨st2, e, _, hf⟩ := hintless_loops now s c q cs hl hK
+      rw [h3] at e
+      simp only [Option.some.injEq, Prod.mk.injEq] at e
+      rw [e.1]
+      exact hf
+    · have hsome : ∃ hint, hint ∈ q.hints ∧ ∃ k, k ∈ s.leasesOf c ∧ hint.same k = true := by
+        unfold IAPDReq.hintless at hl
+        rw [List.all_eq_true] at hl
+        apply Classical.byContradiction
+        intro hno
+        apply hl
+        intro hint hh
+        rcases hall hint hh with he | hk
+        · rw [he]; rfl
+        · exact absurd ⟨hint, hh, hk⟩ hno
+      obtain ⟨st2, e, hf⟩ := exact_loops now s c q cs hall hsome
+      rw [h3] at e
+      simp only [Option.some.injEq, Prod.mk.injEq] at e
+      rw [e.1]
+      exact hf
 
 /-! ### one message -/
 
